@@ -57,12 +57,12 @@ type ctx = { dir : string; spill : string; mutable live : (int * okind) list; mu
 let observe c step ~threads_exact =
   let l = ledger (List.map (fun (i, k) -> (n_of_int i, k)) c.live) in
   (* a thread that has been joined can stay listed in /proc/self/task for a moment (the kernel wakes the joiner before
-     the task is unhashed): when more threads are listed than the ledger expects, look again for up to 200 ms *)
+     the task is unhashed): when more threads are listed than the ledger expects, look again for up to 2 s *)
   let threads_now () = thread_count () - c.base_threads in
   let tcount = (if not threads_exact then threads_now () else begin
       let want = int_of_n l.l_handler_threads in
       let n = ref (threads_now ()) and tries = ref 0 in
-      while !n > want && !tries < 200 do Unix.sleepf 0.001; incr tries; n := threads_now () done; !n end) in
+      while !n > want && !tries < 2000 do Unix.sleepf 0.001; incr tries; n := threads_now () done; !n end) in
   let o = { step; fds = fd_count () - c.base_fds; maps = map_count c.dir; tmp = count_dir c.spill;
             threads = tcount;
             efds = int_of_n l.l_fds; emaps = int_of_n l.l_maps;
